@@ -29,7 +29,12 @@ impl Group for PushGroup {
     }
 
     fn generate(&self, rng: &mut Rng, _tier: &str, _idx: u64) -> Case {
-        let mut lines = vec!["push begin".to_string()];
+        // process-scoped histories (fresh child process: nothing pushed yet, default used or not)
+        let mut lines = if rng.chance(1, 4) {
+            let cfg = match rng.below(3) { 0 => DEFAULT_SCHEME.as_bytes().to_vec(), _ => gen_scheme(rng, false) };
+            vec![format!("push proc {} {}", hex(&cfg), rng.below(2))]
+        } else { vec!["push begin".to_string()] };
+        let proc_case = lines[0].starts_with("push proc");
         let mut n = 0u64;
         for _ in 0..rng.range(4, 22) {
             let k = rng.below(100);
@@ -43,7 +48,7 @@ impl Group for PushGroup {
             let i = rng.below(n);
             if k < 40 {
                 // a push: parseable scheme (small sizes), or something the client cannot parse, or an empty payload
-                let raw = match rng.below(6) { 0 => gen_bad_scheme(rng), 1 => vec![], 2 => DEFAULT_SCHEME.as_bytes().to_vec(), _ => gen_scheme(rng, false) };
+                let raw = match rng.below(6) { 0 => gen_bad_scheme(rng), 1 => vec![], 2 => DEFAULT_SCHEME.as_bytes().to_vec(), 3 if proc_case => DEFAULT_SCHEME.as_bytes().to_vec(), _ => gen_scheme(rng, false) };
                 lines.push(format!("push feed {i} {}", hex(&ref_encode(6, 0, &raw))));
             } else if k < 80 {
                 let l = match rng.below(4) { 0 => 0, 1 => rng.range(1, 30) as usize, 2 => rng.range(80, 500) as usize, _ => rng.below(100) as usize };
@@ -62,12 +67,17 @@ impl Group for PushGroup {
     }
 
     fn exec(&self, case: &Case) -> Outcome {
+        if case.lines.first().map(|l| l.starts_with("push proc")).unwrap_or(false) && std::env::var("VH_CHILD").is_err() {
+            return exec_in_child("push", case);
+        }
         let rt = runtime();
         let mut out = Outcome::default();
         rt.block_on(async {
             let mut sessions: Vec<Sess> = vec![];
             let mut client = None;
             let mut global: Vec<u8> = DEFAULT_SCHEME.as_bytes().to_vec();
+            // in a `begin` case the harness itself has stored a scheme; in a `proc` case only real pushes count
+            let mut pushed_any = !case.lines.first().map(|l| l.starts_with("push proc")).unwrap_or(false);
             for line in &case.lines {
                 let toks: Vec<&str> = line.split_whitespace().collect();
                 let o = match toks.as_slice() {
@@ -80,6 +90,20 @@ impl Group for PushGroup {
                         client = Some(crate::e2e::client_for("127.0.0.1:9", anytls_rs::client::SessionPoolConfig::default(), PaddingFactory::default()));
                         global = DEFAULT_SCHEME.as_bytes().to_vec();
                         "ok".to_string()
+                    }
+                    ["push", "proc", cfg, used] => {
+                        // a fresh process: nothing normalised, nothing pushed yet
+                        let Some(cfg) = unhex(cfg) else { out.obs.push("bad-op".into()); continue; };
+                        if *used == "1" { let _ = PaddingFactory::default(); }
+                        match PaddingFactory::new(&cfg) {
+                            Ok(f) => {
+                                client = Some(crate::e2e::client_for("127.0.0.1:9", anytls_rs::client::SessionPoolConfig::default(), std::sync::Arc::new(f)));
+                                global = cfg.clone();
+                                out.tags.push(format!("proc/default_used={used}"));
+                                "ok".to_string()
+                            }
+                            Err(_) => "reject".to_string(),
+                        }
                     }
                     ["push", "new"] => {
                         let Some(c) = client.as_ref() else { out.obs.push("nonode".into()); continue; };
@@ -108,7 +132,7 @@ impl Group for PushGroup {
                         let (frames, _) = crate::g_frame::ref_parse(&bytes);
                         for (c, _, d) in frames {
                             if c == 6 && !d.is_empty() {
-                                if parse_scheme_ref(&d).is_some() { s.scheme = d.clone(); global = d.clone(); out.tags.push("push/parseable".into()); } else { out.tags.push("push/unparseable".into()); }
+                                if parse_scheme_ref(&d).is_some() { s.scheme = d.clone(); global = d.clone(); pushed_any = true; out.tags.push("push/parseable".into()); } else { out.tags.push("push/unparseable".into()); }
                             }
                         }
                         if s.node.session.is_closed() {
@@ -145,10 +169,10 @@ impl Group for PushGroup {
                         if raw != s.scheme {
                             out.oracle.push(OracleFail { sig: "pushed_scheme_not_adopted/update_padding_scheme".into(), detail: format!("session uses md5 {m}, the last parseable push was md5 {}", md5_hex(&s.scheme)) });
                         }
-                        if g.raw_scheme() != &global[..] {
+                        if pushed_any && g.raw_scheme() != &global[..] {
                             out.oracle.push(OracleFail { sig: "pushed_scheme_not_adopted/process_default".into(), detail: format!("process default md5 {}, last parseable push md5 {}", g.md5(), md5_hex(&global)) });
                         }
-                        format!("md5={m} gmd5={} closed={} pkt={}", g.md5(), s.node.session.is_closed() as u8, s.node.session.verif_pkt_counter())
+                        format!("md5={m} gmd5={} closed={} pkt={}", if pushed_any { g.md5().to_string() } else { "-".to_string() }, s.node.session.is_closed() as u8, s.node.session.verif_pkt_counter())
                     }
                     _ => "bad-op".to_string(),
                 };
@@ -161,4 +185,39 @@ impl Group for PushGroup {
         out.nontrivial = out.tags.iter().any(|t| t.starts_with("push/"));
         out
     }
+}
+
+/// run one case in a fresh child process (process-wide statics of the library make some histories
+/// process-scoped); the child is this binary in `--replay` mode
+pub fn exec_in_child(group: &str, case: &Case) -> Outcome {
+    let dir = std::env::temp_dir().join(format!("vh-child-{}-{}", std::process::id(), std::time::SystemTime::now().duration_since(std::time::UNIX_EPOCH).unwrap().as_nanos()));
+    let base = std::env::var("VH_SCRATCH").map(std::path::PathBuf::from).unwrap_or(dir);
+    let dir = base.join(format!("child-{}", std::time::SystemTime::now().duration_since(std::time::UNIX_EPOCH).unwrap().as_nanos()));
+    std::fs::create_dir_all(&dir).unwrap();
+    let f = dir.join("case.txt");
+    std::fs::write(&f, format!("# case 0\n{}\n", case.lines.join("\n"))).unwrap();
+    let exe = std::env::current_exe().unwrap();
+    let st = std::process::Command::new(exe).args([group, "--replay", f.to_str().unwrap(), "--out", dir.to_str().unwrap()]).env("VH_CHILD", "1").output();
+    let mut out = Outcome::default();
+    match st {
+        Ok(o) if o.status.success() => {
+            let trace = std::fs::read_to_string(dir.join("trace.txt")).unwrap_or_default();
+            for l in trace.lines() { if l.starts_with('#') || l.is_empty() { continue; } out.obs.push(l.split_once(" => ").map(|x| x.1.to_string()).unwrap_or_default()); }
+            for l in std::fs::read_to_string(dir.join("oracle.jsonl")).unwrap_or_default().lines() {
+                // {"case":0,"sig":"..","detail":".."}
+                let sig = l.split("\"sig\":\"").nth(1).and_then(|x| x.split('"').next()).unwrap_or("child").to_string();
+                let detail = l.split("\"detail\":\"").nth(1).map(|x| x.trim_end_matches("\"}").to_string()).unwrap_or_default();
+                out.oracle.push(OracleFail { sig, detail });
+            }
+            let stats = std::fs::read_to_string(dir.join("stats.json")).unwrap_or_default();
+            out.nontrivial = stats.contains("\"nontrivial\":1");
+            out.tags.push("child-process".into());
+        }
+        other => {
+            out.obs = case.lines.iter().map(|_| "CHILD-DIED".to_string()).collect();
+            out.oracle.push(OracleFail { sig: format!("process_died/{group}_child"), detail: format!("{:?}", other.map(|o| o.status)) });
+        }
+    }
+    let _ = std::fs::remove_dir_all(&dir);
+    out
 }
